@@ -494,10 +494,20 @@ pub fn gen13t(rng: &mut Rng) -> Scn13t {
             (0..n).map(|_| if rng.chance(2, 3) { LOp::Success(*rng.pick(&[1u64, 5, 10, 50, 200])) } else { LOp::Failure }).collect()
         })
         .collect();
+    let initial = rng.range(min as u64, max as u64) as u32;
+    // u32::MAX stands for usize::MAX: no upper bound, possibly starting wide open
+    let (initial, max) = if rng.chance(1, 10) { (if rng.chance(2, 3) { u32::MAX } else { initial }, u32::MAX) } else { (initial, max) };
+    // a steady stream of equally fast successes is what makes a limiter creep upwards
+    let threads: Vec<Vec<LOp>> = if max == u32::MAX && rng.chance(1, 2) {
+        let lat = *rng.pick(&[1u64, 5, 10]);
+        (0..nt).map(|_| (0..rng.range(4, 8)).map(|_| LOp::Success(lat)).collect()).collect()
+    } else {
+        threads
+    };
     Scn13t {
         alg,
         min,
-        initial: rng.range(min as u64, max as u64) as u32,
+        initial,
         max,
         increase: rng.range(1, 3) as u32,
         factor_eighths: *rng.pick(&[0u32, 2, 4, 6, 8]),
@@ -512,9 +522,10 @@ pub fn valid13t(s: &Scn13t) -> bool {
     s.alg <= 2
         && s.min >= 1
         && s.min <= s.max
-        && s.max <= 20
+        && (s.max <= 20 || s.max == u32::MAX)
         && s.initial >= s.min
         && s.initial <= s.max
+        && (s.initial <= 20 || s.initial == u32::MAX)
         && s.increase >= 1
         && s.increase <= 4
         && s.factor_eighths <= 8
@@ -555,18 +566,19 @@ impl Alg {
 
 pub fn run13t(s: &Scn13t, ctx: &mut RunCtx) -> RunOutput {
     let scn = s.clone();
-    let (min, max) = (s.min as usize, s.max as usize);
+    let cnt = |n: u32| if n == u32::MAX { usize::MAX } else { n as usize };
+    let (min, max) = (s.min as usize, cnt(s.max));
     let out = run_shuttle(ctx.rt_seed, s.pct_depth, move |_hist| {
         let cfg = AimdConfig::new()
-            .with_initial_limit(scn.initial as usize)
+            .with_initial_limit(cnt(scn.initial))
             .with_min_limit(scn.min as usize)
-            .with_max_limit(scn.max as usize)
+            .with_max_limit(cnt(scn.max))
             .with_increase_by(scn.increase as usize)
             .with_decrease_factor(scn.factor_eighths as f64 / 8.0);
         let alg = Arc::new(match scn.alg {
             0 => Alg::Ctrl(AimdController::new(cfg)),
             1 => Alg::Aimd(Aimd::new(cfg, Duration::from_millis(20))),
-            _ => Alg::Vegas(Vegas::new(scn.initial as usize, scn.min as usize, scn.max as usize, scn.alpha as usize, scn.beta as usize)),
+            _ => Alg::Vegas(Vegas::new(cnt(scn.initial), scn.min as usize, cnt(scn.max), scn.alpha as usize, scn.beta as usize)),
         });
         {
             let a = alg.clone();
